@@ -23,7 +23,11 @@ func genConfig(job *simkit.Job, rng *simkit.RNG, idx int64) (Config, []Action) {
 		wIns = 20 // the operator's input is what this profile is about
 	}
 	cfg.PayloadSize = genPayloadSize(rng, job.Property == "C02")
-	mode := rng.Pick([]int{70, 18, 12, wIns}) // timing | lock-order template | lock-order random | insert-chain template
+	wTimer := 2
+	if job.Property == "C19" {
+		wTimer = 5
+	}
+	mode := rng.Pick([]int{70, 18, 12, wIns, wTimer}) // timing | lock-order template | lock-order random | insert-chain template | timer-behind-lock template
 	if job.Mode == "selftest" && mode != 0 && rng.Chance(1, 2) {
 		mode = 0
 	}
@@ -51,6 +55,8 @@ func genConfig(job *simkit.Job, rng *simkit.RNG, idx int64) (Config, []Action) {
 		return cfg, script
 	case 3:
 		return cfg, genInsertChain(&cfg, rng)
+	case 4:
+		return cfg, genTimerBehindLock(&cfg, rng)
 	case 2:
 		// random lock-order runs park only before locks are taken (a goroutine
 		// parked while it holds the write lock would stall others in a way the
@@ -161,6 +167,100 @@ func genInsertChain(cfg *Config, rng *simkit.RNG) []Action {
 		script = append(script, Action{K: "src_release"})
 	}
 	cfg.Steps = len(script) + rng.Range(0, 12)
+	return script
+}
+
+// genTimerBehindLock: the un-mute timer fires while output holds the write
+// lock.  Muted; a chunk of shell output (or, the mirror image, a status line)
+// is let run to its "-locked" site and held there, holding the lock; the fake
+// clock is advanced to the instant the timer is due (the last shell output
+// plus the pause interval: every step but a sleep takes no time, so the script
+// knows it), or a little past it; the callback, parked at its own site, is
+// then let go behind the holder ("grant_behind": it waits for the lock), and
+// the holder after it.  The held shell output is handled muted at that instant,
+// so calm starts again: output sent right away and a second later must still be
+// suppressed, and the mute ends, announced, the pause interval after the last
+// of them.  A held status line changes nothing about muting: the un-mute
+// happens, announced, as soon as the lock is free.  Nothing is armed by the
+// configuration, so the mute model judges the timing before and after the
+// window.
+func genTimerBehindLock(cfg *Config, rng *simkit.RNG) []Action {
+	var script []Action
+	plain, status := 0, 0
+	p := func() {
+		script = append(script, Action{K: "plain", B: []byte(fmt.Sprintf("<P%d>", plain))})
+		plain++
+	}
+	st := func() {
+		script = append(script, Action{K: "status", B: []byte(fmt.Sprintf("<S%d> status", status))})
+		status++
+	}
+	sleep := func(ns int64) {
+		if ns > 0 {
+			script = append(script, Action{K: "sleep", Ns: ns})
+		}
+	}
+	if rng.Chance(1, 3) {
+		p() // shown
+		if rng.Chance(1, 2) {
+			sleep([]int64{1e6, 1e9, 3e9}[rng.Intn(3)])
+		}
+	}
+	script = append(script, Action{K: "key", B: []byte{0x0f}})
+	since := int64(0) // since the last thing that postpones the un-mute
+	if rng.Chance(1, 2) {
+		d := []int64{1e6, 1e8, 1e9, 19e8}[rng.Intn(4)]
+		sleep(d)
+		since = d
+		switch rng.Intn(3) {
+		case 0, 1:
+			p() // suppressed; calm starts again
+			since = 0
+		case 2:
+			st()
+		}
+	}
+	// the held line is sent after a gap, so that it arrives strictly later than
+	// what the timer counts from and before the timer is due
+	var gaps []int64
+	for _, g := range []int64{1, 1e6, 5e8, 15e8, pause - 1e6, pause - 1} {
+		if since+g < pause {
+			gaps = append(gaps, g)
+		}
+	}
+	g := gaps[rng.Intn(len(gaps))]
+	sleep(g)
+	since += g
+	locked := "plain-locked"
+	if rng.Chance(2, 5) {
+		locked = "logf-locked"
+	}
+	if rng.Chance(1, 2) {
+		script = append(script, Action{K: "arm", Site: locked}, Action{K: "arm", Site: "timer"})
+	} else {
+		script = append(script, Action{K: "arm", Site: "timer"}, Action{K: "arm", Site: locked})
+	}
+	if locked == "plain-locked" {
+		p()
+	} else {
+		st()
+	}
+	over := []int64{0, 0, 0, 0, 0, 0, 1, 1e6, 1e8, 1e9}[rng.Intn(10)]
+	sleep(pause - since + over)
+	script = append(script, Action{K: "grant_behind", Site: "timer"})
+	p() // right away
+	if rng.Chance(1, 4) {
+		st()
+	}
+	if rng.Chance(1, 2) {
+		sleep(1e9)
+		p()
+	}
+	sleep([]int64{pause - 1, pause, pause + 1e6, 3e9}[rng.Intn(4)])
+	p()
+	sleep(25e8)
+	p()
+	cfg.Steps = len(script) + rng.Range(0, 10)
 	return script
 }
 
